@@ -20,11 +20,14 @@ Monitor (the specification's read-back evaluated on a layout that the *implement
   mon-block <raw 0/1> <data-hex>                     → ok
   mon-frag <start> <size> <raw 0/1>                  → ok
   mon-read <size> <start> <fragidx|-> <fragoff> <w1,w2,…|->   → <data-hex>    (`readFile`)
+  mon-effects (<flags> <size> <start> <fragidx|-> <fragoff> <sparse> <w1,…|->)×n  → ok | <clause>@… (`effectViolations`
+        of Sqfs/Spec/Directives.lean on the implementation's per-file results, files in packing order, flags = effective flags)
 -/
 import Driver.Util
 import Sqfs.Model.Sort
 import Sqfs.Model.PackCur
 import Sqfs.Spec.PackSpec
+import Sqfs.Spec.Directives
 namespace Driver.C17
 open Sqfs Sqfs.Sort Sqfs.Pack
 
@@ -160,6 +163,20 @@ def flagsToNat (F : Flags) : Nat :=
   + (if F.dontFragment then Consts.blkDontFragment else 0) + (if F.dontDedup then Consts.blkDontDeduplicate else 0)
   + (if F.ignoreSparse then Consts.blkIgnoreSparse else 0)
 
+def parseEffFiles : List String → Option (List ((Flags × Nat) × FileResult))
+  | [] => some []
+  | fl :: sz :: st :: fi :: fo :: sp :: ws :: t => do
+    let fl ← fl.toNat?
+    let sz ← sz.toNat?
+    let st ← st.toNat?
+    let fo ← fo.toNat?
+    let sp ← sp.toNat?
+    let ws ← parseWords ws
+    let frag ← if fi = "-" then some none else fi.toNat?.map (fun i => some (i, fo))
+    let r ← parseEffFiles t
+    pure (((Flags.ofNat fl, sz), ⟨sz, ws, st, frag, sp, false⟩) :: r)
+  | _ => none
+
 def step (s : St) (line : String) : St × String :=
   match words line with
   | ["decode", m, h] =>
@@ -229,6 +246,13 @@ def step (s : St) (line : String) : St × String :=
       let o : Out := ⟨s.mblocks, s.mfrags, []⟩
       (s, toHexFast (readFile s.params o ⟨sz, ws, st, frag, 0, false⟩))
     | _, _, _, _ => (s, "bad-op")
+  | "mon-effects" :: rest =>
+    match parseEffFiles rest with
+    | some fs =>
+      let o : Out := ⟨s.mblocks, s.mfrags, fs.map (·.2)⟩
+      let v := effectViolations s.B (fs.map (·.1)) o
+      (s, if v.isEmpty then "ok" else " ".intercalate v)
+    | none => (s, "bad-op")
   | _ => (s, "bad-op")
 
 def run (_args : List String) : IO Unit := do
